@@ -230,6 +230,57 @@ def run(chk):
                       f"gamma_bar_{j}(L) == [a'^{j+1}] sum_k gamma_k A(a',L)^(k+1)", rp, free=(kind != "commuting"))
             chk.configs += 1
 
+    # exponentiated on genuine (order, d, d) arrays (numpy view / in-place aliasing semantics of the real code):
+    # gamma_bar_j is linear in the gamma_k with scalar coefficients c_jk(L) read off the free-algebra specification
+    from contracts.common import symmat
+    for n in (1, 2, 3, 4):
+        gamF = [Free.sym(f"G{k}") for k in range(4)]
+        A = picard_A(n, betas[:n])
+        specF = gamma_of_A(n, gamF, A)
+        for d in (2,):
+            Garr = np.empty((n, d, d), dtype=object)
+            for k in range(n):
+                Garr[k] = symmat(f"m{k}_", d)
+            G0 = Garr.copy()
+            rp = mk_replay((n, 0))
+            try:
+                res = exponentiated.gamma_variation(Garr, (n, 0), nf, L)
+            except Exception as e:
+                chk.fail(f"C21.exponentiated.array[order={n},d={d}].no_exception", f"{type(e).__name__}: {e}", fn=fn, replay=rp)
+                continue
+            for j in range(n):
+                cj = specF.coeff(j + 1)      # L-series with Free coefficients sum_k c_jk(L) G_k
+                for r_ in range(d):
+                    for c_ in range(d):
+                        want = None
+                        for k in range(n):
+                            ck = Series("L", cj.val, [x.coeff((f"G{k}",)) if isinstance(x, Free) else Q(0) for x in cj.c]) if isinstance(cj, Series) else (cj.coeff((f"G{k}",)) if isinstance(cj, Free) else Q(0))
+                            term = ck * G0[k, r_, c_]
+                            want = term if want is None else want + term
+                        cmp_L(f"C21.exponentiated.array[order={n},d={d}].gamma[{j}][{r_},{c_}]", res[j][r_, c_], want, fn,
+                              "matrix-valued input (numpy views): gamma_bar_j == sum_k c_jk(L) gamma_k entrywise", rp)
+    # expanded singlet kernel on genuine (order, 2, 2) arrays: distinguishes @ from elementwise *
+    for n in (1, 2, 3, 4):
+        d = 2
+        Garr = np.empty((max(n, 1), d, d), dtype=object)
+        for k in range(max(n, 1)):
+            Garr[k] = symmat(f"m{k}_", d)
+        rp = mk_replay((n, 0))
+        a_s_ = T.var("a_s")
+        resM = expanded.singlet_variation(Garr.copy(), a_s_, (n, 0), nf, L, d)
+        # specification: the free-algebra kernel with each word evaluated as a matrix product
+        gamF = [Free.sym(f"G{k}") for k in range(4)]
+        from contracts import C21 as _self
+        KF = _spec_K_free(n, gamF, betas)
+        for j in range(n):
+            Kj = KF.coeff(j) if j < KF.prec else Q(0)
+            Mj = _eval_words(Kj, {f"G{k}": Garr[k] for k in range(max(n, 1))}, d)   # d x d array of L-series
+            csM = _matrix_as_coeffs(resM, n, d)
+            for r_ in range(d):
+                for c_ in range(d):
+                    cmp_L(f"C21.expanded.array[order={n}].K_{j}[{r_},{c_}]", csM[j][r_][c_], Mj[r_][c_], "eko.scale_variations.expanded:singlet_variation",
+                          "2x2 symbolic matrices: [a'^j] K == path-ordered exponential with genuine matrix products", rp)
+
     # ---------------------------------------------------------------------------------------------------
     # expanded: K = P exp
     # ---------------------------------------------------------------------------------------------------
@@ -426,3 +477,58 @@ def _cmp_as(chk, name, got, want, fn, rp, cmp_L, n, free=False):
     d = got - want
     # all coefficients (in L, words) must vanish identically in a_s, a_em: poly-NF treats a_s, a_em as variables
     cmp_L(name, d, Q(0), fn, "QED kernel == QCD variation of gamma[1:,0] (+ a_em L gamma[0,1] iff running and order[1]>=2)", rp, free=free)
+
+
+def _spec_K_free(n, gamF, betas):
+    """free-algebra specification of the expanded kernel (Gamma.K ordering), outer series in a' with L-series coefficients"""
+    A = picard_A(max(n - 1, 1), betas[: max(n - 1, 1)])
+    Gam = gamma_of_A(max(n - 1, 1), gamF, A)
+    one = Free.one()
+    cs = lambda x: Series.const("L", x, LORD)
+    K0 = Series("ap", 0, [cs(one)] + [cs(Q(0))] * (n - 1)) if n > 1 else Series("ap", 0, [cs(one)])
+    K = K0
+    for _ in range(n):
+        if n == 1:
+            break
+        prod = Gam * K
+        integ = Series("ap", prod.val, [c.integ() for c in prod.c])
+        K = (K0 + integ).truncate(n)
+    return K
+
+
+def _eval_words(Lser_free, mats, d):
+    """evaluate an L-series (or scalar) with Free coefficients on concrete symbolic matrices -> d x d nested list of L-series"""
+    import numpy as np
+    from pyvc import vnp
+
+    def ev(f):
+        tot = vnp.zeros((d, d))
+        if not isinstance(f, Free):
+            return vnp.eye(d) * f
+        for w, c in f.t.items():
+            M = vnp.eye(d)
+            for sname in w:
+                M = M @ mats[sname]
+            tot = tot + M * c
+        return tot
+
+    if isinstance(Lser_free, Series):
+        mats_by_pow = [ev(c) for c in Lser_free.c]
+        out = [[None] * d for _ in range(d)]
+        for r in range(d):
+            for c in range(d):
+                out[r][c] = Series("L", Lser_free.val, [m[r, c] for m in mats_by_pow])
+        return out
+    m = ev(Lser_free)
+    return [[m[r, c] for c in range(d)] for r in range(d)]
+
+
+def _matrix_as_coeffs(resM, n, d):
+    """resM: d x d array of polynomials in a_s with L-series coefficients -> [j][r][c]"""
+    out = [[[None] * d for _ in range(d)] for _ in range(n)]
+    for r in range(d):
+        for c in range(d):
+            cs = _as_coeffs(resM[r, c], n)
+            for j in range(n):
+                out[j][r][c] = cs[j]
+    return out
